@@ -5,6 +5,7 @@ import polars as pl
 
 from ..attributes import BroadcastValue
 from ..pagination.strategies.base import PageContext
+from ..row import Utils
 from ..services import RTFEncodingService
 from ..services.document_service import RTFDocumentService
 from ..services.figure_service import RTFFigureService
@@ -186,6 +187,7 @@ class PageRenderer:
         text = self._format_group_header(info)
         if not text:
             return ""
+        text = Utils._escape_unicode(text)
         return rf"{{\pard\hyphpar\fi0\li0\ri0\ql\fs18{{\f0 {text}}}\par}}"
 
     def _render_column_headers(self, document: Any, page: PageContext) -> list[str]:
